@@ -99,11 +99,11 @@ theorem InvG.no_wake_of_unblocked {sl st} {s : State} (hI : InvG sl st s) {c : C
   rw [e, hc] at hb; cases hb
 
 /-- Only `store`, `out`, `pushed` and fields of `conns` other than `blocked`, `gone`, `peerClosed` differ. -/
-theorem InvG.congr {sl st} {s t : State} (hI : InvG sl st s)
+theorem InvG.congr {sl sl' st} {s t : State} (hI : InvG sl st s)
     (hr : t.registry = s.registry) (hw : t.wakeQ = s.wakeQ) (hl : t.lost = s.lost)
     (hc : ∀ c, (t.conns c).blocked = (s.conns c).blocked ∧ (t.conns c).gone = (s.conns c).gone ∧
       (t.conns c).peerClosed = (s.conns c).peerClosed)
-    (hcounts : ∀ k, cntW t k + sl k ≤ cntL t k ∧ (0 < cntR t k → cntL t k = cntW t k + sl k)) : InvG sl st t := by
+    (hcounts : ∀ k, cntW t k + sl' k ≤ cntL t k ∧ (0 < cntR t k → cntL t k = cntW t k + sl' k)) : InvG sl' st t := by
   have hs : slotsOf t = slotsOf s := by unfold slotsOf; rw [hr, hw]
   refine ⟨?_, ?_, ?_, ?_, ?_, ?_, ?_, hcounts, by rw [hl]; exact hI.lost⟩
   · intro k w h
@@ -126,6 +126,39 @@ theorem InvG.congr {sl st} {s t : State} (hI : InvG sl st s)
     rw [(hc c).2.1, (hc c).2.2]
     exact hI.alive c hb
   · rw [hw]; exact hI.wakeConns
+
+/-- As `congr`, but `gone` / `peerClosed` may change for connections that are not blocked. -/
+theorem InvG.congr_life {sl st} {s t : State} (hI : InvG sl st s)
+    (hs : t.store = s.store) (hr : t.registry = s.registry) (hw : t.wakeQ = s.wakeQ) (hl : t.lost = s.lost)
+    (hc : ∀ c, (t.conns c).blocked = (s.conns c).blocked ∧ ((s.conns c).blocked ≠ none →
+      (t.conns c).gone = (s.conns c).gone ∧ (t.conns c).peerClosed = (s.conns c).peerClosed)) : InvG sl st t := by
+  have hsl : slotsOf t = slotsOf s := by unfold slotsOf; rw [hr, hw]
+  refine ⟨?_, ?_, ?_, ?_, ?_, ?_, ?_, ?_, by rw [hl]; exact hI.lost⟩
+  · intro k w h
+    rw [hr] at h
+    rw [(hc w.conn).1]
+    exact hI.regOk k w h
+  · intro w h
+    rw [hw] at h
+    rw [(hc w.conn).1]
+    exact hI.wakeOk w h
+  · rw [hsl]; exact hI.slots
+  · intro c b hb k hk
+    rw [(hc c).1] at hb
+    rw [hsl]; exact hI.cover c b hb k hk
+  · intro c b hb
+    rw [(hc c).1] at hb
+    exact hI.keysNe c b hb
+  · intro c hb
+    rw [(hc c).1] at hb
+    obtain ⟨h1, h2⟩ := (hc c).2 hb
+    rw [h1, h2]
+    exact hI.alive c hb
+  · rw [hw]; exact hI.wakeConns
+  · intro k
+    have := hI.counts k
+    unfold cntW cntL cntR at *
+    rw [hs, hr, hw]; exact this
 
 /-- Same counts too (only `out`, `pushed`, transaction fields differ). -/
 theorem InvG.congr' {sl st} {s t : State} (hI : InvG sl st s)
